@@ -214,6 +214,12 @@ func c17Families(thorough bool) []c17Member {
 		fmt.Fprintf(&sb, "func F(a int) string {\n\tif a > 0 {\n\t\treturn s%d\n\t}\n\treturn \"x\"\n}\n", n)
 		out = append(out, c17Member{"const-string-doubling", n, sb.String(), ""})
 	}
+	// F3f: a loop bound that is a shift by a VARIABLE holding a constant count (legal Go; the count
+	// of 1<<62 runs fine, the shifted value is simply 0)
+	for _, n := range []int{3, 20, 62} {
+		src := hdr + fmt.Sprintf("func F(a int) int {\n\tvar count uint = 1 << %d\n\tone := 1\n\tlimit := one << count\n\tt := 0\n\tfor i := 0; i < limit; i++ {\n\t\tt += i + a\n\t}\n\treturn t\n}\n", n)
+		out = append(out, c17Member{"loop-bound-shifted-by-variable-count", n, src, ""})
+	}
 	// F4: block count up to beyond the size guard
 	for _, n := range []int{500, 1000, 2000, 2600} {
 		var sb strings.Builder
@@ -340,7 +346,24 @@ func TestVerifC17(t *testing.T) {
 		}
 		var ms0, ms1 runtime.MemStats
 		runtime.ReadMemStats(&ms0)
-		oldFn, instrs, err := load(fmt.Sprintf("m%d-old", mi), m.old)
+		var oldFn *ssa.Function
+		var instrs int
+		var err error
+		func() {
+			defer func() {
+				if p := recover(); p != nil {
+					err = fmt.Errorf("PANIC while loading and fingerprinting: %v", p)
+				}
+			}()
+			oldFn, instrs, err = load(fmt.Sprintf("m%d-old", mi), m.old)
+		}()
+		if err != nil && strings.HasPrefix(err.Error(), "PANIC") {
+			curKey.Store("")
+			r.Eval()
+			r.Nontrivial(key)
+			r.Violate("panic/"+key, fmt.Sprintf("%s: %v", key, err), map[string]interface{}{"member": key})
+			continue
+		}
 		runtime.ReadMemStats(&ms1)
 		loadAlloc := int64(ms1.TotalAlloc - ms0.TotalAlloc)
 		curKey.Store("")
